@@ -12,6 +12,7 @@ import (
 	"github.com/hashicorp/go-hclog"
 	"github.com/hashicorp/raft"
 	wal "github.com/hashicorp/raft-wal"
+	"github.com/hashicorp/raft-wal/fs"
 	"github.com/hashicorp/raft-wal/metadb"
 	"github.com/hashicorp/raft-wal/metrics"
 	"github.com/hashicorp/raft-wal/segment"
@@ -100,6 +101,7 @@ type Sys struct {
 	Rec          *RecMeta
 	MC           metrics.Collector
 	Codec        wal.Codec // optional custom codec
+	CreateViol   []string // what createCheckVFS saw
 	MetaCloseErr bool      // the metadata store's Close fails (once)
 	Cnt          *Expect   // if set, API calls made by the harness are tallied here (metrics oracle)
 }
@@ -209,13 +211,26 @@ func (s *Sys) Open() error {
 	}
 	var w *wal.WAL
 	var err error
-	switch {
-	case s.Codec != nil:
-		w, err = wal.Open(s.Dir, wal.WithMetaStore(ms), wal.WithSegmentSize(s.Cfg.SegSize), wal.WithLogger(nullLogger), wal.WithCodec(s.Codec))
-	case s.MC != nil:
-		w, err = wal.Open(s.Dir, wal.WithMetaStore(ms), wal.WithSegmentSize(s.Cfg.SegSize), wal.WithLogger(nullLogger), wal.WithMetricsCollector(s.MC))
-	default:
-		w, err = wal.Open(s.Dir, wal.WithMetaStore(ms), wal.WithSegmentSize(s.Cfg.SegSize), wal.WithLogger(nullLogger))
+	if s.Real {
+		switch {
+		case s.Codec != nil:
+			w, err = wal.Open(s.Dir, wal.WithMetaStore(ms), wal.WithSegmentSize(s.Cfg.SegSize), wal.WithLogger(nullLogger), wal.WithCodec(s.Codec))
+		case s.MC != nil:
+			w, err = wal.Open(s.Dir, wal.WithMetaStore(ms), wal.WithSegmentSize(s.Cfg.SegSize), wal.WithLogger(nullLogger), wal.WithMetricsCollector(s.MC))
+		default:
+			w, err = wal.Open(s.Dir, wal.WithMetaStore(ms), wal.WithSegmentSize(s.Cfg.SegSize), wal.WithLogger(nullLogger))
+		}
+	} else {
+		// the production filer over the production fs package, with one observation point: what Create hands out
+		filer := wal.WithSegmentFiler(segment.NewFiler(s.Dir, &createCheckVFS{VFS: fs.New(), s: s}))
+		switch {
+		case s.Codec != nil:
+			w, err = wal.Open(s.Dir, filer, wal.WithMetaStore(ms), wal.WithSegmentSize(s.Cfg.SegSize), wal.WithLogger(nullLogger), wal.WithCodec(s.Codec))
+		case s.MC != nil:
+			w, err = wal.Open(s.Dir, filer, wal.WithMetaStore(ms), wal.WithSegmentSize(s.Cfg.SegSize), wal.WithLogger(nullLogger), wal.WithMetricsCollector(s.MC))
+		default:
+			w, err = wal.Open(s.Dir, filer, wal.WithMetaStore(ms), wal.WithSegmentSize(s.Cfg.SegSize), wal.WithLogger(nullLogger))
+		}
 	}
 	if err != nil {
 		s.W = nil
@@ -223,6 +238,36 @@ func (s *Sys) Open() error {
 	}
 	s.W = w
 	return nil
+}
+
+// createCheckVFS passes everything through to the production fs package and looks at the file a successful
+// Create hands out: it must have the requested size and hold only zeros (C07, "created ... zero-filled to the
+// requested size"). A Create that reports an error promises nothing.
+type createCheckVFS struct {
+	types.VFS
+	s *Sys
+}
+
+func (v *createCheckVFS) Create(dir, name string, size uint64) (types.WritableFile, error) {
+	f, err := v.VFS.Create(dir, name, size)
+	if err == nil && v.s.Disk != nil {
+		img := v.s.Disk.Volatile()
+		b, ok := img.Files[name]
+		switch {
+		case !ok:
+			v.s.CreateViol = append(v.s.CreateViol, fmt.Sprintf("Create(%s, %d) returned nil but there is no such file", name, size))
+		case uint64(len(b)) < size:
+			v.s.CreateViol = append(v.s.CreateViol, fmt.Sprintf("Create(%s, %d) returned nil but the file is %d bytes long (not preallocated to the requested size)", name, size, len(b)))
+		default:
+			for i, x := range b {
+				if x != 0 {
+					v.s.CreateViol = append(v.s.CreateViol, fmt.Sprintf("Create(%s, %d) returned nil but byte %d of the new file is %#x, not zero", name, size, i, x))
+					break
+				}
+			}
+		}
+	}
+	return f, err
 }
 
 // Apply runs one op against the WAL and returns its error.
